@@ -13,13 +13,22 @@ package main
 //     A<k>:<sid>:<answer>@<t>                    proxy answer at absolute time t
 //     A<k>:<sid>:<answer>@P<j>+<dt>              proxy answer dt ms after poll j returned (only if it got an offer)
 //     L<k>:<dur>@<t>                             hold ctx.snowflakeLock for dur ms from t
+//     I<k>:<fp>=<url>;<fp>=<url>@<t>             InstallBridgeListProfile at t (replaces the whole list; "-" = empty list)
 //     W<k>:<ms>@0                                watchdog: total observation time of the scenario
+//     D<k>:<n>@0                                 delivery barrier: every client handler of the scenario gets a ResponseWriter
+//                                                whose first Write blocks (a slow connection) until n client handlers
+//                                                have reached their first Write (or 4 s passed), so that the delivery
+//                                                phases of the client responses overlap; Write reads its argument only
+//                                                after the barrier, as io.Writer permits
 // Output: space separated  P<k>=..  C<k>=..  A<k>=..  avail=<len(idToSnowflake)> heapU=<n> heapR=<n> gauge=<sum> freshR=.. freshU=..
+//         tP<k>=<sent>:<seen registered>:<returned>  tC<k>=<sent>:<returned>   (ms since scenario start, -1 = never; the
+//         registration time is an upper bound: the id map is polled every ms while the poll is outstanding)
 
 import (
 	"bufio"
 	"bytes"
 	"container/heap"
+	"encoding/json"
 	"fmt"
 	"io"
 	"log"
@@ -90,27 +99,85 @@ func vbGaugeSum(ctx *BrokerContext) int {
 	return int(sum)
 }
 
+// vbBarrier / vbSlowWriter: see event D
+type vbBarrier struct {
+	mu      sync.Mutex
+	n       int
+	arrived int
+	ch      chan struct{}
+}
+
+func (b *vbBarrier) wait() {
+	b.mu.Lock()
+	b.arrived++
+	if b.arrived == b.n {
+		close(b.ch)
+	}
+	b.mu.Unlock()
+	select {
+	case <-b.ch:
+	case <-time.After(4 * time.Second):
+	}
+}
+
+type vbSlowWriter struct {
+	http.ResponseWriter
+	bar  *vbBarrier
+	once sync.Once
+}
+
+func (w *vbSlowWriter) Write(p []byte) (int, error) {
+	w.once.Do(w.bar.wait)
+	return w.ResponseWriter.Write(p)
+}
+
 func vbDoClient(i *IPC, nat, fp, offer, mode string) string {
+	return vbDoClientW(i, nat, fp, offer, mode, nil)
+}
+
+func vbDoClientW(i *IPC, nat, fp, offer, mode string, bar *vbBarrier) string {
 	var rec *httptest.ResponseRecorder
 	var body []byte
 	rec = httptest.NewRecorder()
+	var rw http.ResponseWriter = rec
+	if bar != nil {
+		rw = &vbSlowWriter{ResponseWriter: rec, bar: bar}
+	}
 	switch mode {
 	case "v", "a":
-		req := messages.ClientPollRequest{Offer: offer, NAT: nat}
+		var b []byte
+		var err error
 		if fp != "-" {
-			req.Fingerprint = fp
+			req := messages.ClientPollRequest{Offer: offer, NAT: nat, Fingerprint: fp}
+			b, err = req.EncodeClientPollRequest()
+		} else {
+			// a client that names no bridge: the fingerprint field is absent (old clients) or empty on the wire; the
+			// encoder of common/messages would fill the default in, so the message is built here
+			var body []byte
+			if len(offer)%2 == 0 {
+				body, err = json.Marshal(struct {
+					Offer string `json:"offer"`
+					NAT   string `json:"nat"`
+				}{offer, nat})
+			} else {
+				body, err = json.Marshal(struct {
+					Offer       string `json:"offer"`
+					NAT         string `json:"nat"`
+					Fingerprint string `json:"fingerprint"`
+				}{offer, nat, ""})
+			}
+			b = append([]byte(messages.ClientVersion+"\n"), body...)
 		}
-		b, err := req.EncodeClientPollRequest()
 		if err != nil {
 			return "err:encode"
 		}
 		if mode == "v" {
 			r := httptest.NewRequest("POST", "/client", bytes.NewReader(b))
-			SnowflakeHandler{i, clientOffers}.ServeHTTP(rec, r)
+			SnowflakeHandler{i, clientOffers}.ServeHTTP(rw, r)
 			body = rec.Body.Bytes()
 		} else {
 			r := httptest.NewRequest("GET", "/amp/client/"+amp.EncodePath(b), nil)
-			SnowflakeHandler{i, ampClientOffers}.ServeHTTP(rec, r)
+			SnowflakeHandler{i, ampClientOffers}.ServeHTTP(rw, r)
 			if rec.Code == 200 {
 				dec, err := amp.NewArmorDecoder(bytes.NewReader(rec.Body.Bytes()))
 				if err != nil {
@@ -144,7 +211,7 @@ func vbDoClient(i *IPC, nat, fp, offer, mode string) string {
 		if nat != "" {
 			r.Header.Set("Snowflake-NAT-Type", nat)
 		}
-		SnowflakeHandler{i, clientOffers}.ServeHTTP(rec, r)
+		SnowflakeHandler{i, clientOffers}.ServeHTTP(rw, r)
 		switch rec.Code {
 		case 200:
 			return "answer:" + rec.Body.String()
@@ -201,22 +268,34 @@ func vbDoAnswer(i *IPC, sid, answer string) string {
 	return "fail"
 }
 
+func vbInstall(ctx *BrokerContext, list string, sep string) (string, error) {
+	first := "-"
+	var sb strings.Builder
+	if list != "-" {
+		for n, b := range strings.Split(list, sep) {
+			kv := strings.SplitN(b, "=", 2)
+			if n == 0 {
+				first = kv[0]
+			}
+			fmt.Fprintf(&sb, "{\"displayName\":\"b\", \"webSocketAddress\":%q, \"fingerprint\":%q}\n", kv[1], kv[0])
+		}
+	}
+	return first, ctx.InstallBridgeListProfile(strings.NewReader(sb.String()), "", "")
+}
+
 func vbRunScenario(args []string) string {
 	if len(args) < 3 || args[0] != "scen" {
 		return "!badcase"
 	}
 	ctx := NewBrokerContext(log.New(io.Discard, "", 0))
 	freshFp := "-" // the fresh clients at the end name a bridge that is in the installed list
+	var freshMu sync.Mutex
 	if args[1] != "-" {
-		freshFp = strings.SplitN(strings.Split(args[1], ",")[0], "=", 2)[0]
-		var sb strings.Builder
-		for _, b := range strings.Split(args[1], ",") {
-			kv := strings.SplitN(b, "=", 2)
-			fmt.Fprintf(&sb, "{\"displayName\":\"b\", \"webSocketAddress\":%q, \"fingerprint\":%q}\n", kv[1], kv[0])
-		}
-		if err := ctx.InstallBridgeListProfile(strings.NewReader(sb.String()), "", ""); err != nil {
+		fp, err := vbInstall(ctx, args[1], ",")
+		if err != nil {
 			return "!bridges:" + err.Error()
 		}
+		freshFp = fp
 	}
 	go ctx.Broker()
 	i := &IPC{ctx}
@@ -234,13 +313,32 @@ func vbRunScenario(args []string) string {
 		}
 	}
 	set := func(k, v string) { mu.Lock(); results[k] = v; mu.Unlock() }
+	times := map[string][]int64{}
+	stamp := func(k string, slot int, t time.Time, start time.Time) {
+		mu.Lock()
+		v := times[k]
+		if v == nil {
+			v = []int64{-1, -1, -1}
+			times[k] = v
+		}
+		if v[slot] < 0 {
+			v[slot] = t.Sub(start).Milliseconds()
+		}
+		mu.Unlock()
+	}
 	// Sequenced mode (event Q): an event scheduled at time t is not launched before the effects of the events
 	// scheduled at least 100 ms earlier have taken place (poll registered; poll expired when its 10 s are over;
-	// client / answer arrived), so that a loaded machine cannot reorder well-separated events. Herds do not use it.
+	// client refused or its offer returned by a poll; answer / installation returned), so that a loaded machine cannot
+	// reorder well-separated events. Herds do not use it.
 	sequenced := false
+	var bar *vbBarrier
 	for _, e := range evs {
 		if e.kind == 'Q' {
 			sequenced = true
+		}
+		if e.kind == 'D' {
+			n, _ := strconv.Atoi(e.f[0])
+			bar = &vbBarrier{n: n, ch: make(chan struct{})}
 		}
 	}
 	type evState struct {
@@ -271,6 +369,12 @@ func vbRunScenario(args []string) string {
 		}
 		return evState{}
 	}
+	deliveredOffers := map[string]bool{}
+	delivered := func(offer string) bool {
+		stMu.Lock()
+		defer stMu.Unlock()
+		return deliveredOffers[offer]
+	}
 	registered := func(sid string) bool {
 		ctx.snowflakeLock.Lock()
 		_, ok := ctx.idToSnowflake[sid]
@@ -283,7 +387,7 @@ func vbRunScenario(args []string) string {
 		}
 		deadline := time.Now().Add(6 * time.Second)
 		for _, p := range evs {
-			if p.isRel || p.kind == 'W' || p.kind == 'Q' || p.kind == 'L' || p.at+100 > e.at || (p.kind == e.kind && p.k == e.k) {
+			if p.isRel || p.kind == 'W' || p.kind == 'Q' || p.kind == 'D' || p.kind == 'L' || p.at+100 > e.at || (p.kind == e.kind && p.k == e.k) {
 				continue
 			}
 			key := fmt.Sprintf("%c%d", p.kind, p.k)
@@ -297,8 +401,11 @@ func vbRunScenario(args []string) string {
 						// its 10 s are over: it must have expired or been matched (then it has returned too)
 						ok = false
 					}
+				case 'C':
+					// its matchSnowflake has taken place once it has returned (refused) or a poll has returned its offer
+					ok = st.returned || delivered(p.f[2])
 				default:
-					ok = st.returned || (!st.arrived.IsZero() && time.Since(st.arrived) > 40*time.Millisecond)
+					ok = st.returned
 				}
 				if ok {
 					break
@@ -312,7 +419,7 @@ func vbRunScenario(args []string) string {
 	for _, e := range evs {
 		e := e
 		key := fmt.Sprintf("%c%d", e.kind, e.k)
-		if e.kind == 'W' || e.kind == 'Q' {
+		if e.kind == 'W' || e.kind == 'Q' || e.kind == 'D' {
 			continue
 		}
 		set(key, "blocked")
@@ -346,14 +453,51 @@ func vbRunScenario(args []string) string {
 			switch e.kind {
 			case 'P':
 				cl, _ := strconv.Atoi(e.f[3])
+				stamp("t"+key, 0, time.Now(), start)
+				stop := make(chan struct{})
+				go func() {
+					for {
+						if registered(e.f[0]) {
+							stamp("t"+key, 1, time.Now(), start)
+							return
+						}
+						select {
+						case <-stop:
+							return
+						case <-time.After(time.Millisecond):
+						}
+					}
+				}()
 				res, got := vbDoPoll(i, e.f[0], e.f[1], e.f[2], cl)
+				close(stop)
+				stamp("t"+key, 2, time.Now(), start)
 				set(key, res)
+				if got {
+					if f := strings.SplitN(res, ":", 3); len(f) == 3 {
+						stMu.Lock()
+						deliveredOffers[f[1]] = true
+						stMu.Unlock()
+					}
+				}
 				mark(key, true)
 				pollDone[e.k] <- got
 			case 'C':
-				set(key, vbDoClient(i, e.f[0], e.f[1], e.f[2], e.f[3]))
+				stamp("t"+key, 0, time.Now(), start)
+				res := vbDoClientW(i, e.f[0], e.f[1], e.f[2], e.f[3], bar)
+				stamp("t"+key, 2, time.Now(), start)
+				set(key, res)
 			case 'A':
 				set(key, vbDoAnswer(i, e.f[0], e.f[1]))
+			case 'I':
+				fp, err := vbInstall(ctx, strings.Join(e.f, ":"), ";")
+				if err != nil {
+					set(key, "err:"+strings.ReplaceAll(err.Error(), " ", "_"))
+				} else {
+					freshMu.Lock()
+					freshFp = fp
+					freshMu.Unlock()
+					set(key, "installed")
+				}
 			case 'L':
 				d, _ := strconv.Atoi(e.f[0])
 				ctx.snowflakeLock.Lock()
@@ -386,7 +530,10 @@ func vbRunScenario(args []string) string {
 	}
 	fresh := func(nat string) string {
 		ch := make(chan string, 1)
-		go func() { ch <- vbDoClient(i, nat, freshFp, "{fresh}", "v") }()
+		freshMu.Lock()
+		ffp := freshFp
+		freshMu.Unlock()
+		go func() { ch <- vbDoClient(i, nat, ffp, "{fresh}", "v") }()
 		select {
 		case r := <-ch:
 			return r
@@ -404,6 +551,19 @@ func vbRunScenario(args []string) string {
 	for _, k := range keys {
 		out = append(out, k+"="+results[k])
 	}
+	tkeys := make([]string, 0, len(times))
+	for k := range times {
+		tkeys = append(tkeys, k)
+	}
+	sort.Strings(tkeys)
+	for _, k := range tkeys {
+		v := times[k]
+		if k[1] == 'P' {
+			out = append(out, fmt.Sprintf("%s=%d:%d:%d", k, v[0], v[1], v[2]))
+		} else {
+			out = append(out, fmt.Sprintf("%s=%d:%d", k, v[0], v[2]))
+		}
+	}
 	mu.Unlock()
 	out = append(out, fmt.Sprintf("avail=%d heapU=%d heapR=%d gauge=%d", avail, hu, hr, vbGaugeSum(ctx)))
 	// fresh clients only make sense (and are harmless) when nothing is waiting
@@ -411,6 +571,73 @@ func vbRunScenario(args []string) string {
 		out = append(out, "freshR="+fresh("restricted"), "freshU="+fresh("unrestricted"))
 	}
 	return strings.Join(out, " ")
+}
+
+// "broker heap <ops>": scripted operations on a real SnowflakeHeap through container/heap, guarded as the broker
+// guards them (Pop: Len() > 0; Remove/Fix: a valid index).
+//   ops: comma list of  u:<id>:<clients>:<proxyType>  heap.Push of a new Snowflake
+//                       o                            heap.Pop
+//                       r:<i>                        heap.Remove(h, i)
+//                       f:<i>:<clients>              (*h)[i].clients = clients; heap.Fix(h, i)
+// Output, one segment per op:  <id handed back|->/<slice: id:clients:index . ...>/<left the heap: id:index . ...>
+func vbRunHeap(ops string) string {
+	h := new(SnowflakeHeap)
+	heap.Init(h)
+	var left []*Snowflake
+	var segs []string
+	if ops == "-" {
+		return ""
+	}
+	for _, op := range strings.Split(ops, ",") {
+		f := strings.Split(op, ":")
+		ret := "-"
+		switch f[0] {
+		case "u":
+			s := new(Snowflake)
+			s.id = f[1]
+			s.clients, _ = strconv.Atoi(f[2])
+			s.proxyType = f[3]
+			s.natType = NATUnrestricted
+			heap.Push(h, s)
+		case "o":
+			if h.Len() > 0 {
+				s := heap.Pop(h).(*Snowflake)
+				ret = s.id
+				left = append(left, s)
+			}
+		case "r":
+			i, _ := strconv.Atoi(f[1])
+			if i < h.Len() {
+				s := heap.Remove(h, i).(*Snowflake)
+				ret = s.id
+				left = append(left, s)
+			}
+		case "f":
+			i, _ := strconv.Atoi(f[1])
+			if i < h.Len() {
+				(*h)[i].clients, _ = strconv.Atoi(f[2])
+				heap.Fix(h, i)
+			}
+		default:
+			return "!badcase"
+		}
+		var arr, out []string
+		for _, s := range *h {
+			arr = append(arr, fmt.Sprintf("%s:%d:%d", s.id, s.clients, s.index))
+		}
+		for _, s := range left {
+			out = append(out, fmt.Sprintf("%s:%d", s.id, s.index))
+		}
+		a, o := "-", "-"
+		if len(arr) > 0 {
+			a = strings.Join(arr, ".")
+		}
+		if len(out) > 0 {
+			o = strings.Join(out, ".")
+		}
+		segs = append(segs, ret+"/"+a+"/"+o)
+	}
+	return strings.Join(segs, " ")
 }
 
 func TestVerifBrokerDriver(t *testing.T) {
@@ -435,6 +662,10 @@ func TestVerifBrokerDriver(t *testing.T) {
 			defer wg.Done()
 			defer func() { <-sem }()
 			args := strings.Split(line, " ")
+			if len(args) == 3 && args[1] == "heap" {
+				res[idx] = vbRunHeap(args[2])
+				return
+			}
 			res[idx] = vbRunScenario(args[1:])
 		}()
 	}
